@@ -14,8 +14,12 @@ RULE = ("the C04 MRS space (generated well-formed MRSs with every argument kind,
         "the native EDS serialisation round trip. Non-trivial = at least 3 predications; distinct = canonical JSON.")
 EXHAUSTIVE = {"quick": False, "thorough": False}
 EXPLANATION = ("Theorems: one node per predication in order with its attributes; node identifiers are unique "
-               "whenever the conversion with unique_ids succeeds. Edge justification, top/edges ending at nodes, "
-               "absence of warnings on well-formed input and the C03 round trip are decided by the oracle.")
+               "whenever the conversion with unique_ids succeeds; every edge is justified by the source (an "
+               "argument of that role selecting the target through a handle constraint, a label or an "
+               "intrinsic variable; the single BV edge of a quantifier to the predication with the same "
+               "variable; an ARG1 predicate-modifier edge to the first representative of the same scope from "
+               "which the node was not reachable). Top/edges ending at nodes, absence of warnings on "
+               "well-formed input and the C03 round trip are decided by the oracle.")
 ASSUMPTIONS = [
     "make_ids_unique sorts a Python set when two predications would get the same new id; the model covers the "
     "case where new ids do not clash (always true under the intrinsic-variable property) and skips the others",
@@ -24,13 +28,14 @@ ASSUMPTIONS = [
 TRUSTED = []
 LEVEL_TEXT = ("Proof (Coq, no axioms) about the model of eds.from_mrs: one node per predication, in order, with "
               "predicate, constant, type and properties of the intrinsic variable; unique node identifiers whenever "
-              "the conversion with unique_ids returns. The full conversion (top selection incl. fallbacks, basic "
+              "the conversion with unique_ids returns; every edge of every node justified by the source "
+              "(C05_edges_justified, C05_bv_edge). The full conversion (top selection incl. fallbacks, basic "
               "dependencies, bound-variable edges, predicate-modifier edges via connected components, id renaming, "
               "warnings, IndexError) is tied to the code by kernel-checked correspondence for all four flag "
-              "combinations; the edge-justification clauses and the C03 round trip are checked by the oracle.")
-LEVEL_NOTE = ("Partial: edge justification and 'no warning on well-formed input' are oracle-checked, not proved. "
+              "combinations; the C03 round trip and the absence of warnings are checked by the oracle.")
+LEVEL_NOTE = ("Partial: 'no warning on well-formed input' and 'every edge ends at a node' are oracle-checked, not proved. "
               "F8 (representative-less scope) is a known finding.")
-TECHNIQUE = "Coq proof (nodes, unique ids) + kernel-checked correspondence + dependency-soundness oracle"
+TECHNIQUE = "Coq proof (nodes, unique ids, edge justification) + kernel-checked correspondence + dependency-soundness oracle"
 DESIGN_REF = "DESIGN.md section 6, C05"
 
 
